@@ -241,6 +241,27 @@ pub fn zs() -> z_stream {
     s
 }
 
+/// Like `zs()`, but zlib-ng gets a zero-filling allocator: zlib-ng does not initialise its window, and what it
+/// hashes beyond the valid data (and therefore which matches it finds after a level change or a flush) depends on
+/// whatever malloc returned. A reference must be a function of the calls: run it on zeroed memory, which is also what
+/// a fresh zlib-rs stream has. zlib-rs keeps NULL callbacks (its own default allocator).
+pub fn zs_for<A: Z>() -> z_stream {
+    let mut s = zs();
+    if A::NAME == "zlib-ng" {
+        s.zalloc = Some(calloc_zalloc);
+        s.zfree = Some(calloc_zfree);
+    }
+    s
+}
+
+unsafe extern "C" fn calloc_zalloc(_opaque: *mut core::ffi::c_void, items: core::ffi::c_uint, size: core::ffi::c_uint) -> *mut core::ffi::c_void {
+    unsafe { libc::calloc(items as usize, size as usize) }
+}
+
+unsafe extern "C" fn calloc_zfree(_opaque: *mut core::ffi::c_void, p: *mut core::ffi::c_void) {
+    unsafe { libc::free(p) }
+}
+
 pub const Z_OK: c_int = 0;
 pub const Z_STREAM_END: c_int = 1;
 pub const Z_NEED_DICT: c_int = 2;
